@@ -83,30 +83,33 @@ type msgInfo struct {
 }
 
 type world struct {
-	mu      sync.Mutex
-	ctx     context.Context
-	cancel  context.CancelFunc
-	p, p2   peer.ID
-	rid     graphsync.RequestID
-	chain   *dag.DAG
-	rm      *responsemanager.ResponseManager
-	tq      *taskqueue.WorkerTaskQueue
-	pmm     *peermanager.PeerMessageManager
-	newKind string
-	nProt   uint64
-	nUnprot uint64
-	ev      map[string]uint64 // notification counts since the last observation
-	compl   []uint64          // statuses given to completed listeners since the last observation
-	atGate  int               // block index the executor is parked at (-1: not at the gate)
-	gateCh  chan string
-	infl    *msgInfo
-	release chan bool
-	netDown map[*rlNet]bool
-	holdCh  chan struct{}
-	armFin  bool // the next FinishTask call of the executor is to be held
-	inFin   bool // the worker is parked before its FinishTask call
-	finCh   chan struct{}
-	hung    bool
+	mu       sync.Mutex
+	ctx      context.Context
+	cancel   context.CancelFunc
+	p, p2    peer.ID
+	rid      graphsync.RequestID
+	chain    *dag.DAG
+	rm       *responsemanager.ResponseManager
+	tq       *taskqueue.WorkerTaskQueue
+	pmm      *peermanager.PeerMessageManager
+	newKind  string
+	nProt    uint64
+	nUnprot  uint64
+	ev       map[string]uint64 // notification counts since the last observation
+	compl    []uint64          // statuses given to completed listeners since the last observation
+	atGate   int               // block index the executor is parked at (-1: not at the gate)
+	gateCh   chan string
+	infl     *msgInfo
+	release  chan bool
+	netDown  map[*rlNet]bool
+	holdCh   chan struct{}
+	armFin   bool // the next FinishTask call of the executor is to be held
+	inFin    bool // the worker is parked before its FinishTask call
+	finCh    chan struct{}
+	armStart bool // the next StartTask call of the worker is to be held
+	inStart  bool // the worker popped the task and is parked before its StartTask call
+	startCh  chan struct{}
+	hung     bool
 }
 
 type rlConn struct{ w *world }
@@ -202,6 +205,21 @@ type rlMgr struct {
 }
 
 func (m rlMgr) StartTask(task *peertask.Task, p peer.ID, ch chan<- queryexecutor.ResponseTask) {
+	m.w.mu.Lock()
+	hold := m.w.armStart
+	m.w.armStart = false
+	m.w.inStart = hold
+	m.w.mu.Unlock()
+	if hold {
+		// the task is popped (active in the queue) but the loop has not seen StartTask yet
+		select {
+		case <-m.w.startCh:
+		case <-m.w.ctx.Done():
+		}
+		m.w.mu.Lock()
+		m.w.inStart = false
+		m.w.mu.Unlock()
+	}
 	m.rm.StartTask(task, p, ch)
 }
 func (m rlMgr) GetUpdates(id graphsync.RequestID, ch chan<- []gsmsg.GraphSyncRequest) {
@@ -289,6 +307,7 @@ const (
 	fnGate    = "main.(*world).blockHook"
 	fnHold    = "main.rlExec.ExecuteTask"
 	fnFin     = "main.rlMgr.FinishTask"
+	fnStart   = "main.rlMgr.StartTask"
 	waitLimit = 10 * time.Second
 )
 
@@ -344,7 +363,7 @@ func (w *world) settle() {
 				if w.tq.Stats().Pending > 0 {
 					ok = false // a frozen peer thaws on the worker's own ticker
 				}
-			case g.state == "select" && (strings.HasPrefix(g.first, fnGate) || strings.HasPrefix(g.first, fnHold) || strings.HasPrefix(g.first, fnFin)):
+			case g.state == "select" && (strings.HasPrefix(g.first, fnGate) || strings.HasPrefix(g.first, fnHold) || strings.HasPrefix(g.first, fnFin) || strings.HasPrefix(g.first, fnStart)):
 				sawWorker = true
 			case g.state == "select" && (strings.HasPrefix(g.first, fnQueue) || strings.HasPrefix(g.first, fnSend)):
 			case g.state == "sync.Cond.Wait" && strings.Contains(g.body, fnPub):
@@ -395,7 +414,7 @@ var labelTerm = map[string]string{
 	"rcancel/": "LReqCancel", "rupdate/ok": "LReqUpdate UOk", "rupdate/ext": "LReqUpdate UExt", "rupdate/err": "LReqUpdate UErr",
 	"rupdate/unpause": "LReqUpdate UUnpause", "apause/": "LApiPause", "aunpause/": "LApiUnpause", "acancel/": "LApiCancel",
 	"aupdate/": "LApiUpdate", "gate/cont": "LGate GCont", "gate/pause": "LGate GPause", "gate/err": "LGate GErr",
-	"gateh/cont": "LGateHold GCont", "gateh/pause": "LGateHold GPause", "gateh/err": "LGateHold GErr", "finish/": "LFinish",
+	"gateh/cont": "LGateHold GCont", "gateh/pause": "LGateHold GPause", "gateh/err": "LGateHold GErr", "finish/": "LFinish", "armstart/": "LArmStart", "start/": "LStart",
 	"send/ok": "LSend true", "send/fail": "LSend false", "hold/": "LHold", "release/": "LRelease",
 }
 
@@ -404,7 +423,7 @@ func runCase(c rlCase) (steps []string, finalEntry bool, hung bool) {
 	ctx, cancel := context.WithCancel(context.Background())
 	w := &world{ctx: ctx, cancel: cancel, p: peer.ID("peer-1"), p2: peer.ID("peer-dummy"), rid: graphsync.NewRequestID(),
 		chain: dag.Chain(c.N), ev: map[string]uint64{}, atGate: -1, gateCh: make(chan string), release: make(chan bool),
-		netDown: map[*rlNet]bool{}, holdCh: make(chan struct{}), finCh: make(chan struct{})}
+		netDown: map[*rlNet]bool{}, holdCh: make(chan struct{}), finCh: make(chan struct{}), startCh: make(chan struct{})}
 	blocks := map[string][]byte{}
 	for _, b := range w.chain.Blocks {
 		blocks[b.Cid.KeyString()] = b.Data
@@ -476,10 +495,11 @@ func runCase(c rlCase) (steps []string, finalEntry bool, hung bool) {
 	w.settle()
 
 	seen, held := false, false
+	lastTq := uint64(0)
 	for _, l := range c.Labels {
 		ret := uint64(0)
 		w.mu.Lock()
-		atGate, infl, inFin := w.atGate, w.infl, w.inFin
+		atGate, infl, inFin, inStart := w.atGate, w.infl, w.inFin, w.inStart
 		w.mu.Unlock()
 		switch l.K {
 		case "new":
@@ -516,6 +536,18 @@ func runCase(c rlCase) (steps []string, finalEntry bool, hung bool) {
 				continue
 			}
 			w.finCh <- struct{}{}
+		case "armstart":
+			if inStart || lastTq == 2 {
+				continue
+			}
+			w.mu.Lock()
+			w.armStart = true
+			w.mu.Unlock()
+		case "start":
+			if !inStart {
+				continue
+			}
+			w.startCh <- struct{}{}
 		case "send":
 			if infl == nil {
 				continue
@@ -534,7 +566,7 @@ func runCase(c rlCase) (steps []string, finalEntry bool, hung bool) {
 			w.release <- l.A == "ok"
 		case "hold":
 			st := w.tq.Stats()
-			if held || atGate >= 0 || inFin || st.Active > 0 || st.Pending > 0 {
+			if held || atGate >= 0 || inFin || inStart || st.Active > 0 || st.Pending > 0 {
 				continue
 			}
 			held = true
@@ -573,7 +605,10 @@ func runCase(c rlCase) (steps []string, finalEntry bool, hung bool) {
 			ex = uint64(w.atGate) + 1
 		} else if w.inFin {
 			ex = 50
+		} else if w.inStart {
+			ex = 51
 		}
+		lastTq = tqs
 		inflN := uint64(0)
 		if w.infl != nil {
 			inflN = w.infl.status
@@ -627,6 +662,10 @@ func genCase(r *rng.R) rlCase {
 	if r.P(1, 5) {
 		c.Labels = append(c.Labels, rlLabel{K: "hold"})
 	}
+	if r.P(1, 4) {
+		// the worker pops the task, its StartTask is held: whatever comes next reaches the loop first
+		c.Labels = append(c.Labels, rlLabel{K: "armstart"})
+	}
 	c.Labels = append(c.Labels, rlLabel{K: "new", A: rng.Pick(r, newKinds)})
 	n := r.Range(2, 12)
 	for i := 0; i < n; i++ {
@@ -662,6 +701,10 @@ func genCase(r *rng.R) rlCase {
 			c.Labels = append(c.Labels, rlLabel{K: "acancel"})
 		case x < 93:
 			c.Labels = append(c.Labels, rlLabel{K: "aupdate"})
+		case x < 92:
+			c.Labels = append(c.Labels, rlLabel{K: "armstart"})
+		case x < 93:
+			c.Labels = append(c.Labels, rlLabel{K: "start"})
 		case x < 94:
 			c.Labels = append(c.Labels, rlLabel{K: "finish"})
 		case x < 97:
@@ -674,6 +717,7 @@ func genCase(r *rng.R) rlCase {
 	// a response still paused is unpaused (the property's assumption) and the tail is repeated
 	tail := func(sendOK func() string) {
 		c.Labels = append(c.Labels, rlLabel{K: "release"})
+		c.Labels = append(c.Labels, rlLabel{K: "start"})
 		// the last block's release may hold the executor's FinishTask, so that the outcome of the final
 		// message is delivered and fully handled first; then FinishTask goes through
 		holdLast := r.P(1, 2)
@@ -720,7 +764,7 @@ func tagsOf(c rlCase) []string {
 		has[l.K] = true
 	}
 	var tags []string
-	for _, k := range []string{"new/accept", "new/reject", "new/pause", "new/hookerr", "send/fail", "rcancel", "rupdate", "apause", "acancel", "aupdate", "gate/pause", "gate/err", "gateh", "finish", "hold"} {
+	for _, k := range []string{"new/accept", "new/reject", "new/pause", "new/hookerr", "send/fail", "rcancel", "rupdate", "apause", "acancel", "aupdate", "gate/pause", "gate/err", "gateh", "finish", "armstart", "hold"} {
 		if has[k] {
 			tags = append(tags, "has:"+k)
 		}
